@@ -125,3 +125,15 @@ package codegen
 //@   ghostcall scanForRayQueryInit visitedBlock
 //@   traverse stepmark 1 stmts ir.Block visitedBlock($)
 //
+//
+// ---- deterministic ordering (C12) --------------------------------------------------------
+//
+//@ func (*Writer).writeDynamicBufferOffsets
+//@   mode bv
+//@   tags C12
+//@   order sort.Slice#1 [groups] key x :: x
+//
+//@ func (*Writer).writeEPOutputStruct
+//@   mode bv
+//@   tags C12
+//@   order sort.Slice#1 [fs-input-locations] key x :: x
